@@ -36,7 +36,7 @@ class Obligation(object):
     def budget_s(self, tier):
         """Wall-clock cap per shard.  A cap, not a target: a shard ends when its path tree is exhausted.
         The floor keeps a loaded machine (several checks at once) from turning into 'inconclusive'."""
-        floor = {"quick": 600, "thorough": 2400}.get(tier, 600)
+        floor = {"quick": 900, "thorough": 2400}.get(tier, 900)
         if isinstance(self.budget, dict):
             return max(floor, self.budget.get(tier, self.budget.get("quick", 120)))
         return max(floor, self.budget)
